@@ -40,6 +40,9 @@ PALETTE_DEFS = [
     ("null", None), ("bold", None), ("red", None), ("bold red on blue", None),
     ("italic", "http://example.org/?a=1&b=2"), ("underline", 'q"uo>t<e'), ("none", "x"),
     ("#ff8800 underline", None), ("dim reverse green", None),
+    # colours a standard / 256-colour console must downgrade for the file, while export_text(styles=True)
+    # always renders the recorded style in truecolor
+    ("color(123) on color(200)", None), ("bold #123456 on #abcdef", None), ("#00ff7f", "http://t.c/"),
 ]
 NPAL = len(PALETTE_DEFS)
 
@@ -145,6 +148,8 @@ def gen_history(rng, wf):
             ops.append([T_XHTML, rng.randint(0, 1), rng.randint(0, 1), rng.randint(0, 1)])
         if rng.random() < 0.08:
             ops += triple(rng)
+        elif rng.random() < 0.06:
+            ops.append([T_XTEXT, 0, 1, 0])
         if depth == 0 and rng.random() < 0.06:
             ops += empty_block(rng)
     while depth > 0:
@@ -189,6 +194,7 @@ def canon(s):
 class _Styles:
     def __init__(self):
         from rich.style import Style
+        Style.parse.cache_clear()       # fresh Style objects per case: no _ansi memo left over from another case
         self.styles = []
         for d, link in PALETTE_DEFS:
             st = Style.null() if d == "null" else Style.parse(d)
@@ -210,14 +216,27 @@ class _Styles:
     def get(self, opt):
         return None if not opt else self.styles[opt[0]]
 
+    @staticmethod
+    def fresh(s):
+        """an equal Style built through the public constructor: no _ansi memo, so what it renders for a colour
+        system does not depend on what the console under test rendered before (Style._make_ansi_codes caches)"""
+        from rich.style import Style
+        if not s:
+            return s
+        f = Style(color=s.color, bgcolor=s.bgcolor, bold=s.bold, dim=s.dim, italic=s.italic, underline=s.underline,
+                  blink=s.blink, blink2=s.blink2, reverse=s.reverse, conceal=s.conceal, strike=s.strike,
+                  underline2=s.underline2, frame=s.frame, encircle=s.encircle, overline=s.overline, link=s.link)
+        assert f == s, (f, s)
+        return f
+
     def table(self, cs, lw, nc=False):
         from rich.color import ColorSystem
         rows = []
         for i, s in enumerate(self.styles):
             t = i if i < NPAL else self.extra_base + i - NPAL
-            shown = s.without_color if (nc and cs and s) else s      # Segment.remove_color
+            shown = self.fresh(s).without_color if (nc and cs and s) else self.fresh(s)      # Segment.remove_color
             a = canon(shown.render("\x00", color_system=cs, legacy_windows=lw)).split("\x00")
-            b = canon(s.render("\x00")).split("\x00")
+            b = canon(self.fresh(s).render("\x00")).split("\x00")
             rows.append([t, 1 if s else 0, s2t(a[0]), s2t(a[1]), s2t(b[0]), s2t(b[1]),
                          s2t(s.get_html_style(None)), [s2t(s.link)] if s.link else []])
         return rows
@@ -446,8 +465,12 @@ def spec_cases(op, arg, out):
     events = [[o[0], o[1]] for o in obs]
     cases.append(("spec.capture_silent", [filled, events]))
     for f, o in zip(filled, obs):
-        if f[0] in (T_XTEXT, T_XHTML):
+        if f[0] in (T_XTEXT, T_XHTML) and o[2]:
             cases.append(("spec.clear_ok", [f[1], o[2][0], o[2][1]]))
+            if f[0] == T_XTEXT and f[2] and o[1]:
+                # export_text(styles=True) = every recorded segment under ITS recorded style rendered in truecolor,
+                # whatever the file write rendered (and cached) before
+                cases.append(("spec.styled_export", [table, o[2][0], o[1][0]]))
     for b, e in _blocks(filled):
         would_be = [c for i in range(b, e + 1) for c in twin[i]]
         delta = [c for i in range(b, e + 1) for c in obs[i][0]]
